@@ -32,7 +32,7 @@ def variants(rng, P2):
     return out
 
 
-def embed(rng, pts2, planar_only=False):
+def embed(rng, pts2, planar_only=False, far=False):
     V = np.c_[pts2, np.zeros(len(pts2))]
     if planar_only:
         return V, np.array([0.0, 0.0, 1.0]), "xy"
@@ -52,6 +52,8 @@ def embed(rng, pts2, planar_only=False):
     s = 2.0 ** int(rng.integers(-2, 3))
     diam = float(np.max(np.linalg.norm(V - V.mean(0), axis=1))) * 2
     t = gen.dy(rng.uniform(-1, 1, 3) * rng.choice([0.0, 1.0, 10.0]) * diam * s, 4)
+    if far:      # 2^16 .. 2^24 diameters away: every coordinate still exactly representable
+        t = gen.dy(rng.uniform(-1, 1, 3) * diam * s, 4) * 2.0 ** int(rng.integers(16, 25))
     W = (V @ M.T) * (k * s) + t
     nz = M @ np.array([0.0, 0.0, 1.0])
     return W, nz, "3d"
@@ -89,8 +91,11 @@ def run(chk):
     for _ in range(npoly):
         kind, P2 = gen.simple_polygon(rng)
         for var in variants(rng, P2):
-            for planar in (True, False):
-                V, nz, emb = embed(rng, var["pts"], planar_only=planar)
+            for planar in (True, False) + (("far",) if kind == "convex" else ()):
+                # far away from the origin: the convex class only (the general constructor's sweep line refuses valid far-away polygons:
+                # recorded finding sweepline-large-coordinates); Polygon.signed_area etc. are inherited by it
+                far = planar == "far"
+                V, nz, emb = embed(rng, var["pts"], planar_only=(planar is True), far=far)
                 for nmode in ("default", "plus", "minus"):
                     if nmode != "default" and rng.random() < 0.5:
                         continue
@@ -98,7 +103,7 @@ def run(chk):
                     if np.linalg.norm(np.cross(V[2] - V[1], V[0] - V[1])) < 1e-9 * np.linalg.norm(V[2] - V[1]) * np.linalg.norm(V[0] - V[1]):
                         chk.count("skipped:collinear-first-corner")  # the constructor cannot take its reference normal there (a C15 matter)
                         continue
-                    st, o = C.excname(observe, V, normal)
+                    st, o = C.excname(observe, V, normal, "ConvexPolygon" if far else "Polygon")
                     if st != "ok":
                         chk.violation("constructor-raised", dict(kind=kind, vertices=V.tolist(), normal=None if normal is None else normal.tolist(), error=st))
                         continue
@@ -108,7 +113,9 @@ def run(chk):
                     # polar moment about the normal axis through the origin: c = 0 -> separate call with explicit normal
                     if emb == "xy":
                         cases.append(C.encode_case("polygon_planar", qs=C.flat(V)))
-                    meta.append(dict(kind=kind, var=var, V=V, normal=normal, nmode=nmode, emb=emb, o=o, i0=i0))
+                    meta.append(dict(kind=kind, var=var, V=V, normal=normal, nmode=nmode, emb=emb, o=o, i0=i0, **(dict(cls="ConvexPolygon", far=True) if far else {})))
+                    if far:
+                        continue
                     # the convex class on the same input (it re-orders the vertices counter-clockwise about the normal it is given or
                     # finds): same measures, positive signed area, the requested normal
                     if kind == "convex" and rng.random() < 0.5:
@@ -152,9 +159,13 @@ def run(chk):
             chk.violation(name, dict(desc, impl=np.asarray(impl).tolist(), exact=np.asarray(exact).tolist(), tol=RTOL * scale))
             return False
 
-        cmp("signed_area", o["signed_area"], abs(ex["sa_spec"]) if convex_cls else ex["sa_spec"], R ** 2)
-        cmp("area", o["area"], abs(ex["sa_spec"]), R ** 2)
-        cmp("perimeter", o["perimeter"], ex["perimeter"], R * len(V))
+        # areas and perimeter are sums over edge DIFFERENCES: their rounding grows with (offset x diameter), not with offset^2
+        D = float(np.max(np.linalg.norm(V - V.mean(0), axis=1))) * 2 + 1e-300
+        if m.get("far"):
+            chk.count("placement:far")
+        cmp("signed_area", o["signed_area"], abs(ex["sa_spec"]) if convex_cls else ex["sa_spec"], R * D)
+        cmp("area", o["area"], abs(ex["sa_spec"]), R * D)
+        cmp("perimeter", o["perimeter"], ex["perimeter"], D * len(V) + 1e-7 * R)
         A = abs(ex["sa_spec"])
         cmp("centroid", o["centroid"], ex["cen_spec"], max(R, R ** 3 / max(A, 1e-300)))
         c = ex["cen_spec"]
